@@ -7,15 +7,15 @@ CONSTANTS
   RecheckAtApply = TRUE
   RecheckISR = TRUE
   KeepOnFail = FALSE
-  CountAll = TRUE
-  InitISRs = {{"r1", "r2", "r3"}}
+  CountAll = FALSE
+  InitISRs = {{"r1", "r2"}, {"r1", "r2", "r3"}, {"r1", "r2", "r3", "r4"}}
   L0 = "r1"
-  PairSels = {"cur", "sl", "prev", "next", "pep", "first", "own"}
-  MaxOps = 8
+  PairSels = {"cur"}
+  MaxOps = 3
   Faults = TRUE
-  EffectiveOnly = FALSE
+  EffectiveOnly = TRUE
   MaxPend = 0
-INVARIANTS C07_LeaderInISR
+INVARIANTS TypeOK C07_LeaderInISR StatusLive WitnessesAreGood PersistedISR
 PROPERTIES StepsOK
-VIEW MCView
+VIEW MCPathView
 CHECK_DEADLOCK FALSE
